@@ -156,9 +156,9 @@ Step(S, e) ==
         IF e.t \notin DOMAIN S.ts THEN [S |-> S, bad |-> {"H.unknown_task"}] ELSE
         LET isYield == e.b = 1
             seg == P.tasks[e.t].segs[e.k]
-            all == LeafSeq(e.s)
-            once(f) == Cardinality({i \in 1..Len(all) : all[i] = f}) = 1
-            ord == IF isYield THEN SelectSeq(OrderedLeafSeq(e.s), LAMBDA f : f \in S.fresh /\ once(f)) ELSE <<>>
+            \* order written = order of first occurrences; tasks also named below a dict are left out (no order is promised)
+            indict == DictLeaves(e.s, FALSE)
+            ord == IF isYield THEN FirstOccurrences(SelectSeq(OrderedLeafSeq(e.s), LAMBDA f : f \in S.fresh /\ f \notin indict)) ELSE <<>>
             S1 == [S EXCEPT !.run = IF S.run # <<>> THEN Front(@) ELSE @, !.ovf = FALSE,
                             !.ts[e.t].st = IF isYield THEN "waiting" ELSE "ending",
                             !.ts[e.t].ys = IF isYield THEN e.s ELSE Val("N", 0, <<>>),
